@@ -88,17 +88,18 @@ def lib_items(S):
     # ---- nonce of the chunk / handshake AEAD
     for (fname, callee, tag) in (("chapoly_encrypt_noise", "chapoly_encrypt_ietf", "enc"),
                                  ("chapoly_decrypt_noise", "chapoly_decrypt_ietf", "dec")):
-        d, w = nonce_layout(S, fname, callee, tag)
-        pat = "role:nonce argument of %s in %s" % (callee, fname)
-        if tag == "enc":
-            S.put("noise_nonce_len", d["len"], pat, w)
-        else:
-            S.put("noise_nonce_len_dec", d["len"], pat, w)
-        S.put("noise_nonce_off_" + tag, d["off"], pat, w)
-        S.put("noise_nonce_end_" + tag, d["end"], pat, w)
-        S.put("noise_nonce_le_" + tag, d["le"], pat, w)
-        S.put("noise_nonce_ctr_width_" + tag, d["width"], pat, w)
-        S.put("lib_%s_noise_to_ietf" % tag, d["roles"], pat, w)
+        with S.section("lib.rs:%s:nonce" % fname):
+            d, w = nonce_layout(S, fname, callee, tag)
+            pat = "role:nonce argument of %s in %s" % (callee, fname)
+            if tag == "enc":
+                S.put("noise_nonce_len", d["len"], pat, w)
+            else:
+                S.put("noise_nonce_len_dec", d["len"], pat, w)
+            S.put("noise_nonce_off_" + tag, d["off"], pat, w)
+            S.put("noise_nonce_end_" + tag, d["end"], pat, w)
+            S.put("noise_nonce_le_" + tag, d["le"], pat, w)
+            S.put("noise_nonce_ctr_width_" + tag, d["width"], pat, w)
+            S.put("lib_%s_noise_to_ietf" % tag, d["roles"], pat, w)
 
     # ---- assert_eq!(key.len(), 32) of chapoly_decrypt_noise
     def dec_key_len():
@@ -115,7 +116,7 @@ def lib_items(S):
                     if v.c == 0 and list(v.t.items()) == [("p0 . len ( )", 1)]:
                         return k, c.where()
         raise ExtractError(item)
-    S.item("lib_dec_noise_key_len", ("role:assert_eq!(<key>.len(), N) in chapoly_decrypt_noise", dec_key_len))
+    S.try_item("lib_dec_noise_key_len", ("role:assert_eq!(<key>.len(), N) in chapoly_decrypt_noise", dec_key_len))
 
     # ---- TAG_SIZE: the bytes added to the plaintext length for the sealed buffer
     def tag_role():
@@ -127,7 +128,7 @@ def lib_items(S):
         need(o.kind == "fill" and o.value == 0, item + ":not a zeroed buffer")
         need(o.size.t == {"p2 . len ( )": 1}, item + ":size `%s` is not plaintext.len() + constant" % o.ctx.text(*o.size_rng))
         return o.size.c, where_of(F, o)
-    S.item("lib_tag_size", ("role:sealed buffer of chapoly_encrypt_ietf = plaintext.len() + N", tag_role),
+    S.try_item("lib_tag_size", ("role:sealed buffer of chapoly_encrypt_ietf = plaintext.len() + N", tag_role),
            ("name:const TAG_SIZE", lambda: named_const_int(S, C, "TAG_SIZE", "lib.rs:TAG_SIZE")))
 
     def ietf_min():
@@ -138,7 +139,7 @@ def lib_items(S):
             if len(r) == 1 and r[0][0] in ("<", "<="):
                 return r[0][1] + (1 if r[0][0] == "<=" else 0), r[0][2]
         raise ExtractError(item)
-    S.item("lib_dec_ietf_min_len", ("role:`if <ciphertext>.len() < N` of chapoly_decrypt_ietf", ietf_min))
+    S.try_item("lib_dec_ietf_min_len", ("role:`if <ciphertext>.len() < N` of chapoly_decrypt_ietf", ietf_min))
 
     def ietf_nonce_key(fname):
         def th():
@@ -158,15 +159,15 @@ def lib_items(S):
                     out.append(R.of_origin(o))
             return out, c.where()
         return th
-    S.item("lib_enc_ietf_to_orion", ("role:arguments of chapoly::seal in chapoly_encrypt_ietf", ietf_nonce_key("chapoly_encrypt_ietf")))
-    S.item("lib_dec_ietf_to_orion", ("role:arguments of chapoly::open in chapoly_decrypt_ietf", ietf_nonce_key("chapoly_decrypt_ietf")))
+    S.try_item("lib_enc_ietf_to_orion", ("role:arguments of chapoly::seal in chapoly_encrypt_ietf", ietf_nonce_key("chapoly_encrypt_ietf")))
+    S.try_item("lib_dec_ietf_to_orion", ("role:arguments of chapoly::open in chapoly_decrypt_ietf", ietf_nonce_key("chapoly_decrypt_ietf")))
 
     # ---- key containers
-    S.item("lib_payload_key_len", ("role:[u8; N] field of struct PayloadKey",
+    S.try_item("lib_payload_key_len", ("role:[u8; N] field of struct PayloadKey",
                                    lambda: struct_array_field(C, "PayloadKey", "lib.rs:PayloadKey")))
-    S.item("lib_handshake_hash_len_enc", ("role:[u8; N] field handshake_hash of struct NoiseEncryptMsg",
+    S.try_item("lib_handshake_hash_len_enc", ("role:[u8; N] field handshake_hash of struct NoiseEncryptMsg",
                                           lambda: struct_array_field(C, "NoiseEncryptMsg", "lib.rs:NoiseEncryptMsg", "handshake_hash")))
-    S.item("lib_handshake_hash_len_dec", ("role:[u8; N] field handshake_hash of struct NoiseDecryptMsg",
+    S.try_item("lib_handshake_hash_len_dec", ("role:[u8; N] field handshake_hash of struct NoiseDecryptMsg",
                                           lambda: struct_array_field(C, "NoiseDecryptMsg", "lib.rs:NoiseDecryptMsg", "handshake_hash")))
 
     def try_from_len(tyname):
@@ -179,8 +180,8 @@ def lib_items(S):
                     return r[0][1], r[0][2]
             raise ExtractError(item)
         return th
-    S.item("lib_public_key_len", ("role:`<raw>.len() != N` of PublicKey::try_from", try_from_len("PublicKey")))
-    S.item("lib_private_key_len", ("role:`<raw>.len() != N` of PrivateKey::try_from", try_from_len("PrivateKey")))
+    S.try_item("lib_public_key_len", ("role:`<raw>.len() != N` of PublicKey::try_from", try_from_len("PublicKey")))
+    S.try_item("lib_private_key_len", ("role:`<raw>.len() != N` of PrivateKey::try_from", try_from_len("PrivateKey")))
 
     def gen_len():
         item = "lib.rs:PrivateKey::generate"
@@ -188,7 +189,7 @@ def lib_items(S):
         c = F.one_call("secure_random", item, count=1)
         arg(F, c, 0, item, 1)
         return c.const(0, item), c.where()
-    S.item("lib_private_key_generate_len", ("role:secure_random(N) of PrivateKey::generate", gen_len))
+    S.try_item("lib_private_key_generate_len", ("role:secure_random(N) of PrivateKey::generate", gen_len))
 
     def x25519_lens():
         item = "lib.rs:x25519:array conversions"
@@ -206,7 +207,7 @@ def lib_items(S):
                     w = L.where()
         need(len(out) == 2, item)
         return out, w
-    S.group(["lib_x25519_sk_len", "lib_x25519_pk_len"], ("role:`let _: [u8; N] = <param>.try_into()` of x25519", x25519_lens))
+    S.try_group(["lib_x25519_sk_len", "lib_x25519_pk_len"], ("role:`let _: [u8; N] = <param>.try_into()` of x25519", x25519_lens))
 
     # ---- hkdf_noise
     def hkdf_noise():
@@ -251,7 +252,7 @@ def lib_items(S):
         d = {"lib_hkdf_noise_c1": c1, "lib_hkdf_noise_c2_len": n2, "lib_hkdf_noise_c2_split": hi1.c,
              "lib_hkdf_noise_c2_tail": tail, "lib_hkdf_noise_shape_ok": 1 if (shape and ret_ok) else 0}
         return d, L.where()
-    S.group(["lib_hkdf_noise_c1", "lib_hkdf_noise_c2_len", "lib_hkdf_noise_c2_split", "lib_hkdf_noise_c2_tail",
+    S.try_group(["lib_hkdf_noise_c1", "lib_hkdf_noise_c2_len", "lib_hkdf_noise_c2_split", "lib_hkdf_noise_c2_tail",
              "lib_hkdf_noise_shape_ok"], ("role:the three hmac_sha256 calls of hkdf_noise", hkdf_noise))
 
     # ---- hkdf_sha256 / scrypt pass-through
@@ -271,7 +272,7 @@ def lib_items(S):
             else:
                 out.append(R.of_origin(o))
         return {"lib_hkdf_to_orion": out, "lib_hkdf_out_len_is_param": okm_len_is_param}, c.where()
-    S.group(["lib_hkdf_to_orion", "lib_hkdf_out_len_is_param"], ("role:arguments of hkdf::derive_key in hkdf_sha256", hkdf_orion))
+    S.try_group(["lib_hkdf_to_orion", "lib_hkdf_out_len_is_param"], ("role:arguments of hkdf::derive_key in hkdf_sha256", hkdf_orion))
 
     def scrypt_pass():
         item = "lib.rs:scrypt:pass-through"
@@ -289,7 +290,7 @@ def lib_items(S):
             need(o.kind == "param", item + ":argument `%s`" % c.text(i))
             out.append(("RParam", o.idx))
         return {"lib_scrypt_passthrough": out, "lib_scrypt_casts_usize": casts}, c.where()
-    S.group(["lib_scrypt_passthrough", "lib_scrypt_casts_usize"], ("role:arguments of scrypt::scrypt in lib.rs::scrypt", scrypt_pass))
+    S.try_group(["lib_scrypt_passthrough", "lib_scrypt_casts_usize"], ("role:arguments of scrypt::scrypt in lib.rs::scrypt", scrypt_pass))
 
     # ---- noise_encrypt / noise_decrypt
     def noise_lib(fname, ptab, tag, msg_method):
@@ -304,10 +305,10 @@ def lib_items(S):
             mr = Roles([R.of_arg(ms[0], 0)])
             return {"lib_noise_%s_initx_roles" % tag: roles, "lib_noise_%s_msg_role" % tag: mr}, c.where()
         return th
-    S.group(["lib_noise_enc_initx_roles", "lib_noise_enc_msg_role"],
+    S.try_group(["lib_noise_enc_initx_roles", "lib_noise_enc_msg_role"],
             ("role:arguments of init_x / write_message in noise_encrypt",
              noise_lib("noise_encrypt", ["RSender", "RSenderPub", "RRecipient", "REphemeral", "REphemeralPub", "RPrologue", "RPayloadKey"], "enc", "write_message")))
-    S.group(["lib_noise_dec_initx_roles", "lib_noise_dec_msg_role"],
+    S.try_group(["lib_noise_dec_initx_roles", "lib_noise_dec_msg_role"],
             ("role:arguments of init_x / read_message in noise_decrypt",
              noise_lib("noise_decrypt", ["RRecipient", "RRecipientPub", "RPrologue", "RHandshakeMsg"], "dec", "read_message")))
 
@@ -319,10 +320,11 @@ def lib_items(S):
             if len(r) == 1 and r[0][0] == "!=":
                 return r[0][1], r[0][2]
         raise ExtractError(item)
-    S.item("lib_noise_dec_payload_len", ("role:`<payload>.len() != N` of noise_decrypt", dec_payload_len))
+    S.try_item("lib_noise_dec_payload_len", ("role:`<payload>.len() != N` of noise_decrypt", dec_payload_len))
 
 
 def run(S):
-    lib_items(S)
+    with S.section("lib.rs"):
+        lib_items(S)
     import xt_noise
     xt_noise.run(S)
